@@ -271,6 +271,33 @@ func runScenario(s Scenario) outcome {
 				out.fail = vt.Failf(prop+"/cancelled-waiter-unanswered", wi, "waiter (table %s, revision %d) was cancelled %.1f s ago and has still no answer", w.ev.Table, w.ev.Rev, end.Sub(w.cancelAt).Seconds())
 				return out
 			}
+			// a live waiter added AFTER its revision had been notified must be answered too (the node has already applied it):
+			// asserted when every notification of the table that started before the Add had returned >= 5 ms before the Add started
+			// and the most recent of them is at or beyond the waiter's revision (the queue keeps the latest notified revision)
+			if w.cancelAt.IsZero() && end.Sub(w.addReturn) > time.Second {
+				var latest *notif
+				clean := true
+				for _, n := range notifs {
+					if n.ev.Table != w.ev.Table || !n.start.Before(w.addReturn) {
+						continue
+					}
+					if !n.returned || n.end.Add(5*time.Millisecond).After(w.addStart) {
+						clean = false
+						break
+					}
+					if latest == nil || n.start.After(latest.start) {
+						if latest != nil && n.start.Sub(latest.start) < 5*time.Millisecond {
+							clean = false
+							break
+						}
+						latest = n
+					}
+				}
+				if clean && latest != nil && latest.ev.Rev >= w.ev.Rev {
+					out.fail = vt.Failf(prop+"/already-applied-revision-not-acknowledged", wi, "waiter (table %s, revision %d) was added %.0f ms after Notify(%d) had returned and is still waiting %.1f s later", w.ev.Table, w.ev.Rev, w.addStart.Sub(latest.end).Seconds()*1000, latest.ev.Rev, end.Sub(w.addReturn).Seconds())
+					return out
+				}
+			}
 			// a live waiter whose revision was notified (notify returned, add had returned before the notify started) must be answered
 			if w.cancelAt.IsZero() {
 				for _, n := range notifs {
